@@ -32,10 +32,11 @@ HistOf(c) == [k \in 1..Len(c.h) |-> [kind |-> c.h[k].kind, ops |-> c.h[k].ops]]
 
 HistCaseOK(c) ==
   LET h == HistOf(c)
+      st == StateAfter(h, Len(h))     \* RefLookup(h, n, g) = RefIn(st, n, g)
   IN /\ ValidHistory(h)       \* the harness only renders what the standard allows
      /\ c.open
      /\ \A i \in 1..Len(c.probes) :
-          c.probes[i][3] = RefLookup(h, c.probes[i][1], c.probes[i][2])
+          c.probes[i][3] = RefIn(st, c.probes[i][1], c.probes[i][2])
      /\ c.trailer = RefTrailer(h)
 
 LenCaseOK(c) ==
